@@ -442,6 +442,10 @@ def gen_graph(rng, flavour='any', moderate=False, dims=None):
     def info(n):
         if moderate:
             return vals.info_moderate(n)
+        if rng.random() < 0.08:
+            # a whole matrix of uniformly tiny entries (other units, a very weak prior): 2^-600 .. 2^-1000 times an ordinary non-diagonal matrix --
+            # every entry is an ordinary double although the sum of their squares underflows; or no information at all
+            return vals.info_moderate(n) * 2.0 ** -rng.choice([600, 800, 1000]) if rng.random() < 0.8 else np.zeros((n, n))
         return vals.info(n, symmetric=(flavour in ('ok', 'defect') or rng.random() < 0.85), diagonal=rng.random() < 0.1)
 
     verts = [Vertex(i, pose(k), fixed=rng.random() < 0.2) for i, k in zip(ids, kinds)]
